@@ -342,11 +342,15 @@ fn twin_runs(ctx: &mut Ctx) {
 /// replace transaction ids by their creation order so that twin runs are comparable
 fn normalise(line: &str, sim: &Sim) -> String {
     let mut s = line.to_string();
+    // ids only occur as the first argument of an event / result: "(<id>," or "(<id>)".  A bare
+    // textual replace would also hit digits of a duration when a random id happens to be
+    // all-decimal (seen once: "39169870225ns" -> "3T1625ns", a false divergence).
+    let sub = |s: &str, id: &str, name: &str| -> String { s.replace(&format!("({},", id), &format!("({},", name)).replace(&format!("({})", id), &format!("({})", name)) };
     for t in &sim.txs {
-        s = s.replace(&crate::sim::short_id(&t.id), &format!("T{}", t.seq));
+        s = sub(&s, &crate::sim::short_id(&t.id), &format!("T{}", t.seq));
     }
     for (k, id) in sim.indication_ids.iter().enumerate() {
-        s = s.replace(&crate::sim::short_id(id), &format!("I{}", k));
+        s = sub(&s, &crate::sim::short_id(id), &format!("I{}", k));
     }
     // drop the step number and the raw bytes (they contain the random ids)
     let s = match s.find(' ') {
